@@ -166,6 +166,13 @@ def run(ctx):
     except Skip:
         pass
 
+    # every accepted event of the window is in the batch the handler gets: the worker only moves the collected set (rule shared with C01)
+    try:
+        from . import c01 as _c01b
+        _c01b.batch_only_moved(ctx, "R02.2")
+    except Skip:
+        pass
+
     # ---- R02.6
     P = "watchexec_events::event::Priority"
     adt = ctx.facts.find_adt(P)
